@@ -293,6 +293,34 @@ func cmdCheck(args []string) int {
 			}
 			continue
 		}
+		if strings.HasPrefix(sc, "recursion-guarded|") {
+			cycles, nf, serr := e.recursionGuarded(sc)
+			head := strings.Join(strings.Split(sc, "|")[:2], "|")
+			add := func(name string, ok bool, detail string) {
+				rs.required++
+				for _, f := range findings {
+					if f.Kind == "finding" && f.Property == id && f.Obl == name {
+						if !ok {
+							rs.known = append(rs.known, name+" "+f.Text)
+						}
+						rs.required--
+						return
+					}
+				}
+				rs.obls = append(rs.obls, evObl{name, "structural", map[bool]string{true: "discharged", false: "failed"}[ok], "ssa-scan", 0})
+				if ok {
+					rs.discharged++
+					rs.bySolver["ssa-scan"]++
+				} else {
+					rs.failures = append(rs.failures, &OblResult{Obl: &Obl{Name: name, Kind: "structural"}, Status: "failed", Raw: detail, Solver: "ssa-scan"})
+				}
+			}
+			add("structural:"+sc+"#scan", serr == "" && nf > 0, fmt.Sprintf("%s (functions in the call graph: %d)", serr, nf))
+			for _, c := range cycles {
+				add("structural:"+head+"#cycle:"+c, false, "recursion cycle that does not pass through a depth guard: "+c)
+			}
+			continue
+		}
 		ok, detail := e.structural(sc)
 		rs.required++
 		name := "structural:" + sc
